@@ -398,6 +398,15 @@ func s2sCatalog(r *rand.Rand, cheap int) []world.IT {
 
 func genRun(method string) func(r *rand.Rand, t core.Tier) any {
 	return func(r *rand.Rand, t core.Tier) any {
+		// one run in seven: per-NodePool price tables; one in twenty: a launch cap below the catalog size
+		if method != "empty" {
+			switch x := r.Float64(); {
+			case x < 0.14:
+				return genOverlayRun(r, method)
+			case x < 0.19:
+				return genCapRun(r, method)
+			}
+		}
 		profile := "mixed"
 		switch x := r.Float64(); {
 		case method == "empty":
@@ -827,6 +836,168 @@ func genValidateZone(r *rand.Rand, t core.Tier) any {
 	in.Churn = &Churn{Kind: "bound", Node: "node-b", Pod: &world.Pod{Name: "churn-pod", Labels: map[string]string{"app": "z"}, CPU: cpuPinned, Mem: 64}}
 	if r.Float64() < 0.2 {
 		in.Churn = nil
+	}
+	return in
+}
+
+// genTables draws per-NodePool price tables: each NodePool (with probability rate) sees the catalog through a price
+// adjustment in percent — on every type, on the offerings of one capacity type, or on a random half of the types (the
+// shapes of a NodeOverlay selecting karpenter.sh/nodepool together with capacity type / instance type, or of a provider
+// pricing a committed-use NodePool).  Only prices differ: names, resources, offerings and their order are the catalog's.
+func genTables(r *rand.Rand, its []world.IT, pools []world.NodePool, rate float64) []PoolTable {
+	var out []PoolTable
+	for _, p := range pools {
+		if r.Float64() >= rate {
+			continue
+		}
+		pct := int64(pick(r, 20, 25, 40, 50, 60, 75, 90, 100, 110, 125, 150, 200))
+		shape := pick(r, "all", "all", "ct", "half")
+		ct := pick(r, "spot", "on-demand")
+		t := PoolTable{Pool: p.Name}
+		for _, it := range its {
+			c := it
+			c.Offerings = append([]world.Offering{}, it.Offerings...)
+			hit := shape != "half" || r.Float64() < 0.5
+			for i := range c.Offerings {
+				if !hit || (shape == "ct" && c.Offerings[i].CapacityType != ct) || c.Offerings[i].CapacityType == "reserved" {
+					continue
+				}
+				c.Offerings[i].Price = c.Offerings[i].Price * pct / 100
+			}
+			t.ITs = append(t.ITs, c)
+		}
+		out = append(out, t)
+	}
+	return out
+}
+
+// genOverlayRun: two or three NodePools (same NodeClass) with their own price tables, oversized nodes spread over them.
+// The distribution is stated by the labels tables=<n>, cand-priced-by-own-table (a candidate of the command whose price in
+// its own NodePool's table differs from the catalog's) and repl-pool-differs (the replacement is requested from another
+// NodePool than some candidate's).
+func genOverlayRun(r *rand.Rand, method string) RunIn {
+	its := genCatalog(r, r.Float64() < 0.15, false)
+	np := 2 + r.IntN(2)
+	var pools []world.NodePool
+	for i := 0; i < np; i++ {
+		p := world.NodePool{Name: fmt.Sprintf("pool-%d", i), Labels: map[string]string{}}
+		if r.Float64() < 0.4 {
+			p.Weight = int32(1 + r.IntN(50))
+		}
+		switch x := r.Float64(); {
+		case x < 0.15:
+			p.Reqs = append(p.Reqs, world.MinExpr{Key: ctKey, Op: "In", Values: []string{"on-demand"}})
+		case x < 0.25:
+			p.Reqs = append(p.Reqs, world.MinExpr{Key: ctKey, Op: "In", Values: []string{"spot"}})
+		}
+		if r.Float64() < 0.2 {
+			p.Labels["team"] = pick(r, "red", "blue")
+		}
+		pools = append(pools, p)
+	}
+	n := 1 + r.IntN(3)
+	if method == "multi" {
+		n = 2 + r.IntN(3)
+	}
+	nodes, podExt, nodeExt := genCluster(r, its, pools, clusterOpts{nodes: n, oversized: 0.75, full: 0.2, decoy: 0.05, costRate: 0.02, constrain: 0.3, spot: 0.35})
+	in := RunIn{Method: method, SpotToSpot: r.Float64() < 0.6, Budget: 100, Pick: []string{}, Pools: defaultPoolExt(pools), Pods: podExt, Nodes: nodeExt, PDBs: []PDBExt{}}
+	in.Tables = genTables(r, its, pools, 0.75)
+	in.Scn = world.Scenario{ITs: its, Pools: pools, Nodes: nodes, DaemonSets: []world.DaemonSet{}, Pods: []world.Pod{}, Parallelism: 1}
+	if in.Pods == nil {
+		in.Pods = []PodExt{}
+	}
+	if in.Nodes == nil {
+		in.Nodes = []NodeExt{}
+	}
+	if method == "single" && r.Float64() < 0.35 {
+		in.Pick = []string{nodes[r.IntN(len(nodes))].Name}
+	}
+	return in
+}
+
+// genCapRun: a catalog with MORE compatible instance types than the launch cap (scheduling.MaxInstanceTypes, set per run:
+// RunIn.MaxITs) and a NodePool with minValues, so that truncating a new NodeClaim to the cheapest `cap` types may leave
+// fewer distinct values than minValues asks for (Results.TruncateInstanceTypes then drops the NodeClaim and must report
+// its pods as unschedulable).  Shapes: the cheap types all of one architecture and a few dearer ones of the other (arch
+// minValues 2), instance-type minValues around the cap, zone minValues; controls without minValues, with the BestEffort
+// policy, and with a cap above the catalog size.  The candidates' pods fit nowhere but on a new node (or, as a control,
+// on a roomy neighbour).
+func genCapRun(r *rand.Rand, method string) RunIn {
+	n := 5 + r.IntN(8)
+	cap := 2 + r.IntN(5)
+	if r.Float64() < 0.12 {
+		cap = n + 1 + r.IntN(3) // control: nothing is cut
+	}
+	shape := pick(r, "arch", "arch", "arch", "it", "it", "zone", "none")
+	nArm := 1 + r.IntN(3)
+	var its []world.IT
+	names := []string{}
+	for i := 0; i < n; i++ {
+		cpu := int64(pick(r, 2000, 2000, 4000))
+		it := world.IT{Name: fmt.Sprintf("it-%02d", i), CPU: cpu, Mem: cpu * 4, Pods: 16, Arch: "amd64", OS: []string{"linux"}}
+		price := int64(40 + 6*i + r.IntN(3)*2)
+		switch {
+		case shape == "arch" && i >= n-nArm:
+			it.Arch = "arm64" // the dear end of the catalog
+		case shape != "arch" && r.Float64() < 0.3:
+			it.Arch = "arm64"
+		}
+		zs := zones
+		if shape == "zone" && i < n-2 {
+			zs = zones[:1] // the cheap types are sold in one zone only
+		}
+		for _, z := range zs {
+			it.Offerings = append(it.Offerings, world.Offering{Zone: z, CapacityType: "on-demand", Price: price, Available: true})
+			if r.Float64() < 0.4 {
+				it.Offerings = append(it.Offerings, world.Offering{Zone: z, CapacityType: "spot", Price: price * 6 / 10, Available: r.Float64() < 0.9})
+			}
+		}
+		its = append(its, it)
+		names = append(names, it.Name)
+	}
+	dear := world.IT{Name: "it-dear", CPU: 16000, Mem: 64000, Pods: 30, Arch: "amd64", OS: []string{"linux"}}
+	for _, z := range zones {
+		dear.Offerings = append(dear.Offerings, world.Offering{Zone: z, CapacityType: "on-demand", Price: 2000, Available: true})
+	}
+	its = append(its, dear)
+	names = append(names, dear.Name)
+	pool := world.NodePool{Name: "pool-0", Labels: map[string]string{}}
+	switch shape {
+	case "arch":
+		mv := 2
+		pool.Reqs = append(pool.Reqs, world.MinExpr{Key: "kubernetes.io/arch", Op: "In", Values: []string{"amd64", "arm64"}, MinValues: &mv})
+	case "it":
+		mv := max(1, cap-1+r.IntN(3))
+		pool.Reqs = append(pool.Reqs, world.MinExpr{Key: itKey, Op: "In", Values: names, MinValues: &mv})
+	case "zone":
+		mv := 2 + r.IntN(2)
+		pool.Reqs = append(pool.Reqs, world.MinExpr{Key: zoneKey, Op: "In", Values: zones, MinValues: &mv})
+	}
+	if r.Float64() < 0.2 {
+		pool.Reqs = append(pool.Reqs, world.MinExpr{Key: ctKey, Op: "In", Values: []string{"on-demand"}})
+	}
+	pools := []world.NodePool{pool}
+	k := 1 + r.IntN(2)
+	if method == "multi" {
+		k = 2 + r.IntN(2)
+	}
+	var nodes []world.Node
+	for i := 0; i < k; i++ {
+		nd := world.Node{Name: fmt.Sprintf("node-%d", i), Pool: "pool-0", IT: "it-dear", Zone: pick(r, zones...), CapacityType: "on-demand", Labels: map[string]string{}, Stage: "initialized"}
+		for j := 0; j <= r.IntN(2); j++ {
+			nd.Pods = append(nd.Pods, world.Pod{Name: fmt.Sprintf("bound-%d-%d", i, j), Labels: map[string]string{"app": pick(r, "a", "b")}, CPU: int64(100 * (2 + r.IntN(5))), Mem: 64})
+		}
+		nodes = append(nodes, nd)
+	}
+	if r.Float64() < 0.2 {
+		// control: a neighbour with room (a delete is then in order)
+		nodes = append(nodes, world.Node{Name: "node-roomy", Pool: "pool-0", IT: "it-dear", Zone: "z1", CapacityType: "on-demand", Labels: map[string]string{}, Stage: "initialized",
+			Pods: []world.Pod{{Name: "resident", Labels: map[string]string{"app": "c"}, CPU: 12000, Mem: 64}}})
+	}
+	in := RunIn{Method: method, SpotToSpot: r.Float64() < 0.5, Budget: 100, Pick: []string{}, Pools: defaultPoolExt(pools), Pods: []PodExt{}, Nodes: []NodeExt{}, PDBs: []PDBExt{}, MaxITs: cap}
+	in.Scn = world.Scenario{ITs: its, Pools: pools, Nodes: nodes, DaemonSets: []world.DaemonSet{}, Pods: []world.Pod{}, Parallelism: 1, BestEffortMinVal: r.Float64() < 0.15}
+	if r.Float64() < 0.15 {
+		in.Scn.Pods = append(in.Scn.Pods, world.Pod{Name: "pend-0", Labels: map[string]string{"app": "p"}, CPU: int64(100 * (1 + r.IntN(10))), Mem: 64})
 	}
 	return in
 }
